@@ -50,7 +50,7 @@ def roundtrip(which):
         z = np.asfortranarray(z)
     elif lay == 2:
         z = np.ascontiguousarray(z.T).T
-    dx = float(rng.uniform(0.01, 2.0))
+    dx = float(rng.uniform(0.01, 2.0)) if rng.random() < 0.85 else 0.0          # 0 = the documented "no lateral calibration"
     # catalogue lines and arbitrary wavelengths (as many significant digits as a float has)
     wvl = float(rng.choice([0.6328, 0.55, 1.064])) if rng.random() < 0.5 else float(rng.uniform(0.3, 11))
     tmp = tempfile.mkdtemp(prefix='pvc_c14_')
@@ -76,7 +76,7 @@ def roundtrip(which):
                 check('invalid-samples-in-place', bool((np.isnan(got) == nanmask).all()) if tuple(got.shape) == (H, W) else False)
                 ok = tuple(got.shape) == (H, W) and bool(np.allclose(got[~nanmask], z[~nanmask], atol=q, rtol=0))
                 check('values-and-orientation', ok)
-                check('dx', bool(np.isclose(gdx, dx, rtol=1e-6)))
+                check('dx', bool(np.isclose(gdx, dx, rtol=1e-6, atol=0)))
                 check('wavelength', bool(np.isclose(gw, wvl, rtol=1e-6)))
             else:
                 raw = open(path, 'rb').read()
